@@ -2563,6 +2563,14 @@ class IndexRow(MasterSchemaRow):
             # Left strip the remaining sql command
             remaining_sql_command = remaining_sql_command.lstrip()
 
+            # Check for comments after the index name, before the "ON" clause
+            while remaining_sql_command.startswith(("--", "/*")):
+                comment, remaining_sql_command = parse_comment_from_sql_segment(
+                    remaining_sql_command
+                )
+                self.comments.append(comment.rstrip())
+                remaining_sql_command = remaining_sql_command.lstrip()
+
             # Check if this remaining sql statement starts with "ON"
             if (
                 remaining_sql_command[: len(INDEX_ON_COMMAND)].upper()
@@ -2580,6 +2588,14 @@ class IndexRow(MasterSchemaRow):
             remaining_sql_command = remaining_sql_command[
                 len(INDEX_ON_COMMAND) :
             ].lstrip()
+
+            # Check for comments after the "ON" clause, before the table name
+            while remaining_sql_command.startswith(("--", "/*")):
+                comment, remaining_sql_command = parse_comment_from_sql_segment(
+                    remaining_sql_command
+                )
+                self.comments.append(comment.rstrip())
+                remaining_sql_command = remaining_sql_command.lstrip()
 
             # Get the table name and remaining sql
             (
